@@ -140,6 +140,10 @@ struct CrystalData {
   double pristine_volume = 0;
   double model_volume() const;   // harness's own triclinic formula
   bool volume_comparable() const;
+  // a crystal nobody could call malformed: short plain-ASCII name, at least one atom of a tabulated element, ordinary
+  // cell.  Only these MUST be accepted; a library may reject anything else as long as it does so cleanly (C14: "a
+  // rejected or malformed addition leaves the collection as it was").
+  bool plain() const;
 };
 CrystalData expand_crystal(const CrystalSpec& s);
 std::string render_crystal_file(const FileSpec& fs, bool* wellformed, std::vector<CrystalData>* contents, long* data_end = nullptr, bool* layout_only = nullptr);
